@@ -5,8 +5,10 @@ p = sys.argv[1]
 s = open(p, "rb").read()
 crlf = b"\r\n" in s
 t = s.replace(b"\r\n", b"\n").decode("latin-1")
-for old, new in json.load(sys.stdin):
-    if t.count(old) != 1:
+for ent in json.load(sys.stdin):
+    old, new = ent[0], ent[1]
+    want = ent[2] if len(ent) > 2 else 1
+    if t.count(old) != want:
         sys.exit("pattern occurs %d times in %s: %r" % (t.count(old), p, old[:80]))
     t = t.replace(old, new)
 b = t.encode("latin-1")
